@@ -10,7 +10,7 @@ namespace Pcore.Format
 def XVal.isLeaf : XVal → Bool
   | .array _ | .hash _ | .obj _ _ => false
   | .typ _ (_ :: _) => false
-  | .talias _ _ | .otype _ _ => false
+  | .talias _ _ | .otype _ _ | .otypeX _ _ => false
   | _ => true
 
 theorem typeFinish_text_reported (f : Fmt) (name ps : Str) (c : Code) : typeFinish f name (.text ps) ≠ .reported c := by
@@ -55,6 +55,7 @@ theorem fmtX_reported_leaf {κ : Type} (ks : KeySys κ) (io : FloatIO) (m : GMap
       · exact absurd h (typeFinish_text_reported _ _ _ _)
   | talias name r => simp [XVal.isLeaf] at hv
   | otype name ih => simp [XVal.isLeaf] at hv
+  | otypeX d ih => simp [XVal.isLeaf] at hv
   | obj name es => simp [XVal.isLeaf] at hv
   | array vs => simp [XVal.isLeaf] at hv
   | hash es => simp [XVal.isLeaf] at hv
@@ -86,6 +87,7 @@ theorem fmtX_of_not_accepts {κ : Type} (ks : KeySys κ) (io : FloatIO) (m : GMa
     simp [acceptsX, modelLettersX, XVal.kind] at h
     have hl : isTypeLetter (getG ks m (.otype name ih)).f.letter = false := by simp [isTypeLetter, h]
     simp only [fmtX, hl, Bool.not_false, if_true]
+  | otypeX d ih => simp [XVal.isContainer] at hv
   | obj name es => simp [XVal.isContainer] at hv
   | array vs => simp [XVal.isContainer] at hv
   | hash es => simp [XVal.isContainer] at hv
@@ -124,6 +126,11 @@ theorem fmtX_width_flagged {κ : Type} (ks : KeySys κ) (io : FloatIO) (m : GMap
     (hw : (getG ks m v).f.width = some w) (s : Str) (h : fmtX ks io m ind v = .text s) : w ≤ s.length := by
   cases v with
   | otype name ih =>
+    simp only [fmtX] at h
+    split at h
+    · cases h
+    · exact typeFinish_width _ _ _ w hw s h
+  | otypeX d ih =>
     simp only [fmtX] at h
     split at h
     · cases h
@@ -190,6 +197,7 @@ theorem fmtX_width_leaf {κ : Type} (ks : KeySys κ) (io : FloatIO) (m : GMap κ
   | uri t => exact fmtX_width_flagged ks io m ind _ w (by simp [XVal.kind]) hw s h
   | typ name ps => exact fmtX_width_flagged ks io m ind _ w (by simp [XVal.kind]) hw s h
   | otype name ih => exact fmtX_width_flagged ks io m ind _ w (by simp [XVal.kind]) hw s h
+  | otypeX d ih => simp [XVal.isContainer] at hv
   | tspan ns => simp [XVal.kind] at hk
   | tstamp t => simp [XVal.kind] at hk
   | sensitive x => simp [XVal.kind] at hk
@@ -367,6 +375,18 @@ theorem fmtX_otype_anon {κ : Type} (ks : KeySys κ) (io : FloatIO) (m : GMap κ
             ((ind.increase (getG ks m (.otype [] ih)).f.alt).increase (getG ks m (.otype [] ih)).f.alt) true ih).bind fun s =>
           .text ("Object[{".toList ++ s ++ (if (getG ks m (.otype [] ih)).f.alt then '\n' :: ind.padding else []) ++ "}]".toList)) := by
   simp only [fmtX, hl, Bool.not_true, Bool.false_eq_true, if_false, List.isEmpty_nil, Bool.not_true]
+
+/-- an object type in a context with the property `expanded` is written as an anonymous one is: `Object[{` … `}]` around the entries of
+    its init hash (which then holds its name) — the default Object type excepted -/
+theorem fmtX_otype_expanded {κ : Type} (ks : KeySys κ) (io : FloatIO) (m : GMap κ) (ind : Ind) (ih : List OEntry)
+    (hl : isTypeLetter (getG ks m (.otypeX false ih)).f.letter = true) :
+    fmtX ks io m ind (.otypeX false ih) =
+      typeFinish (getG ks m (.otypeX false ih)).f []
+        ((otypeEntries ks io m (cfOfG ks (getG ks m (.otypeX false ih))) (getG ks m (.otypeX false ih)).f
+            (ind.increase (getG ks m (.otypeX false ih)).f.alt)
+            ((ind.increase (getG ks m (.otypeX false ih)).f.alt).increase (getG ks m (.otypeX false ih)).f.alt) true ih).bind fun s =>
+          .text ("Object[{".toList ++ s ++ (if (getG ks m (.otypeX false ih)).f.alt then '\n' :: ind.padding else []) ++ "}]".toList)) := by
+  simp only [fmtX, hl, Bool.not_true, Bool.false_eq_true, if_false]
 
 /-- the letter of a container is checked before anything else -/
 theorem fmtX_array_unsupported {κ : Type} (ks : KeySys κ) (io : FloatIO) (m : GMap κ) (ind : Ind) (vs : List XVal)
